@@ -11,6 +11,7 @@ mod c04;
 mod c10;
 mod c15;
 mod c16;
+mod c17;
 mod c18;
 mod client;
 mod poolop;
@@ -41,6 +42,12 @@ fn eval(op: &str, args: &[&str]) -> Option<Vec<String>> {
         "body" => c10::body(args),
         "hval" | "hvalrt" => c02::hval(args),
         "hname" => c02::hname(args),
+        "mbox" => c17::mbox(args),
+        "mboxlist" => c17::mboxlist(args),
+        "mboxparse" => c17::mboxparse(args),
+        "date" => c17::date(args),
+        "typed" => c17::typed(args),
+        "build" => c17::build(args),
         "hdrs" => c02::hdrs(args),
         "crlf" => c10::crlf(args),
         "qp" => c10::qp(args),
